@@ -201,6 +201,18 @@ PROPS = {
         rule="refresh requests (forced or not), waits and Close on the real RtRefreshManager with members of different ages whose "
              "liveness probe answers, fails, hangs or cannot be dialled, and queries that succeed, fail or hang", trusted=[], shards={"quick": 4, "thorough": 16},
     ),
+    "C05": dict(
+        pkg=".", test="TestVerifC05", model="C05", verdict="C05v", level="proof", diff_is_failure=False,
+        rule="a case seeds value records directly into the datastore (fresh, older than the maximum age, corrupt, filed under another key, "
+             "rejected by the validator) and then runs 1-3 rounds of 2-4 concurrent callers — PUT_VALUE handler (message key equal to or "
+             "different from the record key; better/equal/worse/invalid values), GET_VALUE handler, local PutValue — on a real IpfsDHT whose "
+             "datastore grants one access at a time according to a generated schedule (which caller wins a stripe lock is decided by the Go "
+             "runtime: the recorded access trace becomes part of the case); the model must accept the trace access by access (expected "
+             "access, lock stripe free, value read = model store) and predict every caller's result and what a reader gets afterwards; "
+             "non-trivial = every case; distinct = case text",
+        trusted=["gate datastore over go-datastore MapDatastore (assumed linearizable per access)", "real clock: a caller that has not reached the datastore within 3 ms is treated as blocked on a lock (affects only which schedules are explored)"],
+        shards={"quick": 8, "thorough": 16},
+    ),
     "C08": dict(
         pkg=".", test="TestVerifC08", model="C08", verdict="C08v", level="proof", diff_is_failure=True, also=["C15"],
         accept=lambda m, o: m == "-" or m == "pseq=*" or (" " + m + " ") in (" " + o + " "),
